@@ -103,14 +103,16 @@ DoWhere2 == /\ "where2" \in Ops /\ ncols >= 2
 (* inserts go to the base table (a view cannot be modified); a ragged insert brings column c and pads *)
 NewRows == {<<[a |-> 1, b |-> 0, c |-> M]>>, <<[a |-> 0, b |-> 2, c |-> M], [a |-> 2, b |-> 2, c |-> M]>>}
 RaggedRows == {<<[a |-> 1, b |-> M, c |-> 5]>>, <<[a |-> M, b |-> 1, c |-> N], [a |-> 0, b |-> 0, c |-> 7]>>}
-(* an indexed table stays in index order: rows that do not continue the order are sorted in (stable) *)
-After(nr) == IF idx = <<>> THEN rows \o nr ELSE Sorted(rows \o nr, idx)
+(* rows are appended; the table keeps *claiming* its indexes (as the code does: TransactionResult relies on
+   inserting pre-sorted data into an indexed table).  `fresh` records whether the rows really are in index
+   order; where must equal the scan either way. *)
 DoInsert == /\ "insert" \in Ops /\ sel = Whole
-            /\ \/ \E nr \in NewRows : /\ rows' = After(nr) /\ UNCHANGED ncols
-                    /\ hist' = Append(hist, Step("insert", [i \in DOMAIN nr |-> <<nr[i].a, nr[i].b>>], RowsOut(After(nr), ncols), ncols, idx))
-               \/ \E nr \in RaggedRows : /\ rows' = After(nr) /\ ncols' = 3
-                    /\ hist' = Append(hist, Step("insertc", [i \in DOMAIN nr |-> <<nr[i].a, nr[i].b, nr[i].c>>], RowsOut(After(nr), 3), 3, idx))
-            /\ sel' = [i \in 1..Len(rows') |-> i] /\ fresh' = TRUE /\ UNCHANGED idx
+            /\ \/ \E nr \in NewRows : /\ rows' = rows \o nr /\ UNCHANGED ncols
+                    /\ hist' = Append(hist, Step("insert", [i \in DOMAIN nr |-> <<nr[i].a, nr[i].b>>], RowsOut(rows \o nr, ncols), ncols, idx))
+               \/ \E nr \in RaggedRows : /\ rows' = rows \o nr /\ ncols' = 3
+                    /\ hist' = Append(hist, Step("insertc", [i \in DOMAIN nr |-> <<nr[i].a, nr[i].b, nr[i].c>>], RowsOut(rows \o nr, 3), 3, idx))
+            /\ sel' = [i \in 1..Len(rows') |-> i] /\ UNCHANGED idx
+            /\ fresh' = (idx = <<>> \/ (fresh /\ \A i \in 1..(Len(rows') - 1) : ~KeyLess(rows'[i+1], 0, rows'[i], 0, idx) \/ rows'[i] = rows'[i+1]))
 DoCopy == /\ "copy" \in Ops /\ hist' = Append(hist, Step("copy", <<>>, RowsOut(CurRows, ncols), ncols, idx))
           /\ UNCHANGED <<rows, ncols, idx, sel, fresh>>
 (* groupby(level,'count'): partition of the rows by the first `level` index columns, in order *)
